@@ -40,7 +40,7 @@
 #define VP_G_LOCK vp_g
 #define VP_G_ALL vp_g
 #else
-#define VP_G_STEP vp_g.hold, vp_g.spin, vp_g.waited, vp_g.dead, vp_g.set_desig, vp_g.longw_set, vp_g.enq_long, vp_g.enq_count, vp_g.last_new
+#define VP_G_STEP vp_g.hold, vp_g.spin, vp_g.waited, vp_g.dead, vp_g.set_desig, vp_g.released_with_desig, vp_g.longw_set, vp_g.enq_long, vp_g.enq_count, vp_g.last_new
 /* ... plus those written through the waiting flag and the semaphore stubs */
 #define VP_G_LOCK VP_G_STEP, vp_g.queued, vp_g.p_calls      /* what an acquisition (possibly sleeping) writes */
 #define VP_G_ALL VP_G_STEP, vp_g.queued, vp_g.p_calls, vp_g.v_calls, vp_g.cond_evals, vp_g.last_cond, vp_g.last_sem_outcome
@@ -101,13 +101,16 @@ __CPROVER_assigns ();
 
 /* release functions; C13: with vp_g.release_ctx set, the hooks mark the mutex dead at the step after
    which this thread holds neither the lock nor the spinlock, and assert that it is not touched again */
+#define VP_PRE_UNLOCK_SLOW(mu, l_type) (VP_TYPES_OK () && VP_IS_LTYPE (l_type) && VP_MU_IS (mu) && vp_g.hold == VP_HOLD_OF (l_type) && !vp_g.spin && !vp_g.dead)
+#define VP_POST_UNLOCK_SLOW_A() (vp_g.hold == VP_NONE && !vp_g.spin && vp_g.dead == (vp_g.release_ctx ? 1 : 0))
 void nsync_mu_unlock_slow_ (nsync_mu *mu, lock_type *l_type)
-__CPROVER_requires (VP_TYPES_OK () && VP_IS_LTYPE (l_type) && VP_MU_IS (mu))
-__CPROVER_requires (vp_g.hold == VP_HOLD_OF (l_type) && !vp_g.spin && !vp_g.dead)
-__CPROVER_ensures (vp_g.hold == VP_NONE && !vp_g.spin && vp_g.dead == (vp_g.release_ctx ? 1 : 0))
+__CPROVER_requires (VP_PRE_UNLOCK_SLOW (mu, l_type))
+__CPROVER_ensures (VP_POST_UNLOCK_SLOW_A ())
 __CPROVER_ensures (vp_g.queued == __CPROVER_old (vp_g.queued) && vp_g.waited == __CPROVER_old (vp_g.waited))
 __CPROVER_ensures (vp_g.p_calls == __CPROVER_old (vp_g.p_calls) && vp_g.last_sem_outcome == __CPROVER_old (vp_g.last_sem_outcome))
-__CPROVER_assigns (VP_G_ALL, VP_FW_DATA, mu->word, mu->waiters);
+/* C02 H1: if the release leaves the MU_DESIG_WAKER this thread set, it has woken at least one waiter */
+__CPROVER_ensures (!vp_g.released_with_desig || vp_g.v_calls != __CPROVER_old (vp_g.v_calls))
+__CPROVER_assigns (VP_G_ALL, VP_FW_DATA, vp_cvg.spin, vp_wk.cleared, vp_wk.posted, vp_wk.pending, vp_wk.last_cleared, mu->word, mu->waiters);
 
 /* (C04: inside a cv wait the mutex is released only after the waiter is on the cv's queue) */
 void nsync_mu_unlock (nsync_mu *mu)
